@@ -56,7 +56,15 @@ let answer (r : 'a res) (f : 'a -> int olist) (spec : ostring) =
 let dup_name (ks : tree olist) (name : string) = OLst.exists (fun k -> ostr (label k).n_name = ostr name) ks
 
 let handle toks =
+  (* the handle route of a query (@c @e @f @p) and the open mode do not exist in the model: the answers are the same *)
+  let toks = match toks with r :: rest when OStr.length r = 2 && r.[0] = '@' -> rest | _ -> toks in
   try match toks with
+  | ["reopen"; _] -> "OK -"
+  | ["peek"; e] ->
+    (match e.[0] with
+     | 'S' -> ignore (live_sec (tail e)) | 'R' -> ignore (live_src (tail e)) | 'B' -> ignore (live_blk (tail e))
+     | _ -> failwith "bad peek");
+    "OK -"
   | ["new"] ->
     st := empty_file; nsec := 0; nsrc := 0; nblk := 0; narr := 0; ntag := 0; nmtag := 0; nprop := 0; "OK -"
   | ["block"] ->
